@@ -646,14 +646,14 @@ public:
 					{
 						rapidjson::PrettyWriter<StringBuffer, TEncoding, rapidjson::UTF8<>> writer(buffer);
 						writer.SetIndent(options.formatOptions.paddingChar, options.formatOptions.paddingCharNum);
-						mRootJson.Accept(writer);
+						ThrowWhenWritingFailed(mRootJson.Accept(writer));
 					}
 					else
 					{
 						rapidjson::Writer<StringBuffer, TEncoding, rapidjson::UTF8<>> writer(buffer);
-						mRootJson.Accept(writer);
+						ThrowWhenWritingFailed(mRootJson.Accept(writer));
 					}
-					*arg = buffer.GetString();
+					arg->assign(buffer.GetString(), buffer.GetSize());
 				}
 				else if constexpr (std::is_same_v<T, std::ostream*>)
 				{
@@ -664,12 +664,12 @@ public:
 					{
 						rapidjson::PrettyWriter<AutoOutputStream, TEncoding, rapidjson::AutoUTF<uint32_t>> writer(eos);
 						writer.SetIndent(options.formatOptions.paddingChar, options.formatOptions.paddingCharNum);
-						mRootJson.Accept(writer);
+						ThrowWhenWritingFailed(mRootJson.Accept(writer));
 					}
 					else
 					{
 						rapidjson::Writer<AutoOutputStream, TEncoding, rapidjson::AutoUTF<uint32_t>> writer(eos);
-						mRootJson.Accept(writer);
+						ThrowWhenWritingFailed(mRootJson.Accept(writer));
 					}
 				}
 			}, mOutput);
@@ -678,6 +678,16 @@ public:
 	}
 
 private:
+	static void ThrowWhenWritingFailed(bool result)
+	{
+		// The writer stops at the first value which cannot be represented in JSON, the output is incomplete in this case
+		if (!result)
+		{
+			throw SerializationException(SerializationErrorCode::OutOfRange,
+				"Unable to write JSON: the document contains NaN, Infinity or a string with invalid UTF sequence");
+		}
+	}
+
 	static rapidjson::UTFType ToRapidUtfType(const Convert::Utf::UtfType utfType)
 	{
 		switch (utfType)
